@@ -203,6 +203,7 @@ def check_molecule(ctx: Ctx, rng, types, bonds, names, label, feats):
     ctx.count("molecule-outcome", status)
     ctx.distinct.add(("mol", tuple(sorted(feats)), len(types) // 10))
     out = []
+    mf = None
     if ctx.driver.available():
         req = f"peoe.run\t{','.join(hexs(n) for n in names)}\t{','.join(hexs(t) for t in types)}\t{';'.join(f'{i},{j},{t if t != chr(97) + chr(114) else 4}' for i, j, t in bonds)}"
         ans = ctx.driver.ask([req])[0]
@@ -226,6 +227,11 @@ def check_molecule(ctx: Ctx, rng, types, bonds, names, label, feats):
     tot, ftot = sum(real["charge"]), sum(real["formal"])
     if abs(tot - ftot) > 1e-9 * max(1, len(types)):
         out.append(({"aspect": "conservation", "features": ",".join(sorted(feats))}, f"{label}: charges sum to {tot}, formal charges to {ftot}", {"mol2": text}))
+    elif mf is not None and abs(tot - sum(mf)) > 1e-9 * max(1, len(types)):
+        # the molecule's formal charge by the valence rules as transcribed in the model (Model/Peoe.lean over the
+        # generated ligand tables), not as the run under test computed it: a defect in the perception of bond orders
+        # shifts the implementation's own formal charges and its total together
+        out.append(({"aspect": "conservation", "features": ",".join(sorted(feats)), "reference": "valence-rules"}, f"{label}: charges sum to {tot}, the molecule's formal charge by the valence rules is {sum(mf)} (the run's own formal charges sum to {ftot})", {"mol2": text}))
     if any(not (r > 0) for r in real["radius"]):
         out.append(({"aspect": "radius", "features": "-"}, f"{label}: non-positive radius", {"mol2": text}))
     # renaming
